@@ -21,11 +21,13 @@ pub fn run<F: FnMut(&Case<'_>, &mut Report)>(rep: &mut Report, o: &Opts, cfg: Ge
     let mut readable: Vec<String> = vec![];
     let mut tried = 0u64;
     let mut accepted = 0u64;
+    let mut wf_reqs: Vec<String> = vec![];
     while (accepted as usize) < n_cmds && tried < (n_cmds as u64) * 30 {
         tried += 1;
         let cmd = gen_cmd(&mut rng, &cfg, 0, "prog");
         if !real_valid(&cmd) { rep.count("generated_invalid_definition(skipped)"); continue; }
         accepted += 1;
+        if rep.check_wf { wf_reqs.push(format!("wf {} {}", cmd.depth(), cmd.encode())); }
         let mut argvs: Vec<Vec<Vec<u8>>> = (0..n_argv).map(|_| gen_argv(&mut rng, &cmd, maxlen)).collect();
         argvs.extend(gen_extra(&mut rng, &cmd));
         for argv in argvs {
@@ -42,6 +44,14 @@ pub fn run<F: FnMut(&Case<'_>, &mut Report)>(rep: &mut Report, o: &Opts, cfg: Ge
         }
     }
     rep.count_n("valid_definitions", accepted);
+    if o.driver != "none" && !wf_reqs.is_empty() {
+        // do the hypotheses of the totality theorem (Clap.C01.tryGetMatchesFrom_total) hold for the built model of
+        // each command the real library accepted? (statistics: how much of the generated space the theorem covers)
+        for (req, m) in wf_reqs.iter().zip(driver_batch(&o.driver, &wf_reqs, o.par).iter()) {
+            if m == "WF tree=1 height=1" { rep.count("totality_theorem_hypotheses_hold"); }
+            else { rep.count(&format!("totality_theorem_hypotheses_fail:{m}")); if rep.notes.len() < 12 { rep.notes.push(format!("WF hypothesis not met: {m} for {req}")); } }
+        }
+    }
     if o.driver != "none" {
         let model = driver_batch(&o.driver, &reqs, o.par);
         for (idx, ((req, m), i)) in reqs.iter().zip(model.iter()).zip(impls.iter()).enumerate() {
